@@ -11,6 +11,7 @@ import (
 	"context"
 	"fmt"
 	"net/netip"
+	"runtime"
 	"slices"
 	"sync"
 	"sync/atomic"
@@ -279,6 +280,7 @@ func TestVerifC14Concurrent(t *testing.T) {
 						ok = vc14Matches(want(known[i]), p, d, lerr)
 					}
 
+					runtime.Gosched()
 					if !ok {
 						failMu.Lock()
 						failures = append(failures, fmt.Sprintf("lookup by %s overlapping syncs %d..%d returned (%v, %v, %v), which matches none of those states", what, lo, hi, p, d, lerr))
@@ -300,9 +302,7 @@ func TestVerifC14Concurrent(t *testing.T) {
 
 			finished.Store(int64(i))
 			// let the lookers see this state for a moment
-			for y := 0; y < 50; y++ {
-				time.Sleep(20 * time.Microsecond)
-			}
+			time.Sleep(300 * time.Microsecond)
 		}
 
 		close(stop)
